@@ -22,7 +22,12 @@ def plan(tier, seed):
         jobs += [dict(N=2, kinds=4, via=v) for v in ('api', 'source')]
         jobs += [dict(N=3, kinds=2, via='api'), dict(N=3, kinds=3, via='source', max_edges=4)]
         jobs += [dict(N=n, family=f, via='api') for n in (4, 5) for f in ('ring', 'ring+tail', 'ring+island', 'self+chain')]
+        # the same graphs over BUILT-IN commands (which command carries each reference, and with which weight, is solver-chosen)
+        jobs += [dict(N=n, kinds=2, via='source', eems=True) for n in (1, 2)]
+        jobs += [dict(N=3, family=f, via='source', eems=True) for f in ('ring', 'ring+tail', 'ring+island', 'self+chain')]
     else:
+        jobs += [dict(N=n, kinds=2, via='source', eems=True) for n in (1, 2, 3)]
+        jobs += [dict(N=4, family=f, via='source', eems=True) for f in ('ring', 'ring+tail', 'ring+island', 'self+chain')]
         jobs += [dict(N=n, kinds=4, via=v) for n in (1, 2) for v in ('api', 'source')]
         for first in range(4):
             jobs.append(dict(N=3, kinds=4, via='api', fix01=first))
@@ -43,9 +48,11 @@ def family_edges(ctx, cfg):
     edge = {}
 
     def ek(name):
+        if cfg.get('eems'):
+            return 1            # the built-in command chosen for the node fixes how it references (directly / in a list)
         return kind_choices[ctx.choice(name, len(kind_choices))]
     if fam == 'ring':
-        rot = ctx.choice('rot', N)
+        rot = ctx.choice('rot', N) if not cfg.get('eems') else 0
         order = list(range(rot, N)) + list(range(rot))
         if ctx.choice('rev', 2):
             order.reverse()
@@ -119,21 +126,24 @@ def harness(ctx, cfg):
             if sum(1 for j in range(N) if edge.get((i, j)) == 1) > 3:
                 raise symx.Abort("more than three direct references (bound)")
     rec = {'N': N, 'edges': [[i, j, k] for (i, j), k in sorted(edge.items()) if k], 'via': cfg['via']}
-    oc, detail = run_concrete(N, edge, cfg['via'])
+    eems = None
+    if cfg.get('eems'):
+        eems = choose_eems(ctx, N, edge)
+        rec['eems'] = eems
+        rec['text'] = eems_text(N, edge, eems)
+    oc, detail = run_concrete(N, edge, cfg['via'], eems)
     shape = 'self-loop' if any(i == j and k for (i, j), k in edge.items()) else 'cycle'
     obs = [('cyclic model is rejected with RecursiveModelStructure', z3.BoolVal(oc == 'rejected'))]
     return {'outcome': oc, 'obligations': obs, 'groups': {obs[0][0]: 'outcome=%s' % oc}, 'replay': dict(rec, observed=oc, detail=detail), 'validated': True}
 
 
-def run_concrete(N, edge, via):
-    import mpvnodes
+def one_run(p, executed):
+    """run p once -> (outcome, detail); executed() -> names of the commands whose execute() ran so far"""
     E = sys.modules['mpilot.exceptions']
-    del mpvnodes.LOG[:]
     old = sys.getrecursionlimit()
     sys.setrecursionlimit(400)       # a runaway recursion costs milliseconds, not seconds
     try:
         try:
-            p = C01.build(N, edge, via)
             p.run()
         except E.RecursiveModelStructure:
             return 'rejected', ''
@@ -145,14 +155,99 @@ def run_concrete(N, edge, via):
             return 'interpreter-recursion-limit', ''
     finally:
         sys.setrecursionlimit(old)
-    names = ['c%d' % i for i in range(N)]
-    skipped = [nm for nm in names if mpvnodes.LOG.count(nm) == 0]
+    done = executed()
+    skipped = [nm for nm in p.commands if nm not in done]
     return ('returned-normally-with-unexecuted-commands' if skipped else 'returned-normally'), 'not executed: %s' % skipped
+
+
+def run_concrete(N, edge, via, eems=None):
+    """build the model, run it, and - when it was rejected - run the SAME Program object a second time (a cyclic
+    model is rejected by every run, not only by the first)"""
+    import mpvnodes
+    del mpvnodes.LOG[:]
+    if eems is not None:
+        p, executed = build_eems(N, edge, eems)
+    else:
+        p = C01.build(N, edge, via)
+        executed = lambda: set(mpvnodes.LOG)     # noqa: E731
+    oc, detail = one_run(p, executed)
+    if oc != 'rejected':
+        return oc, detail
+    oc2, detail2 = one_run(p, executed)
+    if oc2 != 'rejected':
+        return 'second-run:' + oc2, detail2
+    return 'rejected', ''
+
+
+EEMS_LIBS = ('mpilot.libraries.eems.basic', 'mpvinputs')
+UNARY = ['Copy', 'Sum2', 'WSum-t-first', 'WSum-t-last', 'Multiply1', 'AMinusB', 'Mean2', 'WMean']
+NARY = ['Sum', 'WeightedSum', 'Maximum', 'WeightedMean']
+WEIGHTS = [0, 1, 0.5]
+
+
+def choose_eems(ctx, N, edge):
+    """solver-chosen built-in command (and weights) for every node of the graph"""
+    plan_ = []
+    for i in range(N):
+        ts = [j for j in range(N) if edge.get((i, j))]
+        if not ts:
+            plan_.append(('leafcopy', []))
+        elif len(ts) == 1:
+            c = UNARY[ctx.choice('cmd%d' % i, len(UNARY))]
+            w = WEIGHTS[ctx.choice('w%d' % i, len(WEIGHTS))] if c.startswith('W') else None
+            plan_.append((c, [w]))
+        else:
+            c = NARY[ctx.choice('cmd%d' % i, len(NARY))]
+            ws = [WEIGHTS[ctx.choice('w%d_%d' % (i, t), 2)] for t in ts] if c.startswith('Weighted') else []
+            if ws and not any(ws):
+                ws[-1] = 0.5        # WeightedMean of all-zero weights is a different (arithmetic) matter
+            plan_.append((c, ws))
+    return plan_
+
+
+def eems_text(N, edge, plan_):
+    lines = ['X = SymInput(Name = X)']
+    for i in range(N):
+        ts = ['c%d' % j for j in range(N) if edge.get((i, j))]
+        c, ws = plan_[i]
+        nm = 'c%d' % i
+        if c == 'leafcopy':
+            lines.append('%s = Copy(InFieldName = X)' % nm)
+        elif c == 'Copy':
+            lines.append('%s = Copy(InFieldName = %s)' % (nm, ts[0]))
+        elif c == 'Sum2':
+            lines.append('%s = Sum(InFieldNames = [%s, X])' % (nm, ts[0]))
+        elif c == 'Mean2':
+            lines.append('%s = Mean(InFieldNames = [X, %s])' % (nm, ts[0]))
+        elif c == 'Multiply1':
+            lines.append('%s = Multiply(InFieldNames = [%s])' % (nm, ts[0]))
+        elif c == 'AMinusB':
+            lines.append('%s = AMinusB(A = X, B = %s)' % (nm, ts[0]))
+        elif c == 'WSum-t-first':
+            lines.append('%s = WeightedSum(InFieldNames = [%s, X], Weights = [%s, 1])' % (nm, ts[0], ws[0]))
+        elif c == 'WSum-t-last':
+            lines.append('%s = WeightedSum(InFieldNames = [X, %s], Weights = [1, %s])' % (nm, ts[0], ws[0]))
+        elif c == 'WMean':
+            lines.append('%s = WeightedMean(InFieldNames = [X, %s], Weights = [2, %s])' % (nm, ts[0], ws[0]))
+        elif c in ('Sum', 'Maximum'):
+            lines.append('%s = %s(InFieldNames = [%s])' % (nm, c, ', '.join(ts)))
+        else:
+            lines.append('%s = %s(InFieldNames = [%s], Weights = [%s])' % (nm, c, ', '.join(ts), ', '.join(str(w) for w in ws)))
+    return '\n'.join(lines)
+
+
+def build_eems(N, edge, plan_):
+    import numpy
+    import mpvinputs
+    from mpilot.program import Program
+    mpvinputs.TABLE['X'] = numpy.ma.array([1.0, 2.0, 4.0], mask=[False, True, False])
+    p = Program.from_source(eems_text(N, edge, plan_), libraries=EEMS_LIBS)
+    return p, (lambda: set(nm for nm, c in p.commands.items() if c.is_finished))
 
 
 def confirm(rec, label):
     edge = {(i, j): k for i, j, k in rec['edges']}
-    oc, detail = run_concrete(rec['N'], edge, rec['via'])
+    oc, detail = run_concrete(rec['N'], edge, rec['via'], [tuple(x) for x in rec['eems']] if rec.get('eems') else None)
     return oc != 'rejected', 'fresh real run: %s %s' % (oc, detail)
 
 
@@ -172,10 +267,12 @@ def describe(tier):
                       'mpilot/params.py: ResultParameter.clean, ListParameter.clean', 'mpilot/exceptions.py: RecursiveModelStructure'],
         'bounds': {
             'quick': 'every directed graph with at least one cycle (self-loops included) on N<=2 commands with reference kinds {direct, list, nested list}, N=3 with direct references (all) and with lists (<=4 edges), '
-                     'built through add_command and from_source; N=4,5: the structured families ring, ring+tail (tail consuming or consumed), ring+separate acyclic component, self-loop+chain with solver-chosen orientation and reference kinds',
-            'thorough': 'N=3 all kinds exhaustively, N=4 direct exhaustively, N=4 lists <=5 edges, families on N=3..5 through both construction paths incl. list / nested-list edges',
+                     'built through add_command and from_source; N=4,5: the structured families ring, ring+tail (tail consuming or consumed), ring+separate acyclic component, self-loop+chain with solver-chosen orientation and reference kinds; '
+                     'the same over BUILT-IN commands (Copy, Sum, Mean, Multiply, AMinusB, Maximum, WeightedSum / WeightedMean with weights from {0, 1, 0.5}; which command carries each reference is solver-chosen): all cyclic graphs on N<=2, the families on N=3; '
+                     'every rejected model is run a second time on the same Program object',
+            'thorough': 'built-in commands: all cyclic graphs on N<=3, families on N=4; N=3 all kinds exhaustively, N=4 direct exhaustively, N=4 lists <=5 edges, families on N=3..5 through both construction paths incl. list / nested-list edges',
         },
-        'outside': ['graphs on more than 5 commands', 'N>=4 beyond direct references and the listed families'],
+        'outside': ['graphs on more than 5 commands', 'user commands that never read one of their inputs (detection is dynamic: a reference that is never followed is never seen)', 'N>=4 beyond direct references and the listed families'],
         'assumptions': ['graph structure = z3 integer variables constrained by "some command reaches itself" (transitive-closure Booleans); the explorer follows exactly the satisfiable assignments',
                         'the interpreter recursion limit is lowered to 400 during the run so that runaway recursion is observed quickly',
                         'every explored path is a run of the real Program on that concrete graph'],
